@@ -8,7 +8,8 @@ Modelled (control flow mirrored; mutation -> returned value; loops -> folds / fu
   `z` test of the cylinder's `out` branch.  `‖v‖ > r` and `‖v‖ < r` are decided without square roots
   (`normGt`, `normLt`), which is exact over the reals.
 * `is_restricted`: only the FIRST entry of `rw_options` is consulted; sign test on `n·step`, then the
-  angle bound.  The angle bound `angle(n, step) ≤ |ref|` is modelled through `c = cos |ref|` (shipped by
+  angle bound.  `update_positions` hands it the UNWRAPPED trial point (`last + step`), so a step that
+  crosses a box face is judged by the step itself (fix b739cad).  The angle bound `angle(n, step) ≤ |ref|` is modelled through `c = cos |ref|` (shipped by
   the harness) as `n·step ≥ c‖n‖‖step‖`, decided on squares.
 * `pbc_min_dist` (component-wise `min((a-b) % L, (b-a) % L)`, python float `%` = `pmod`),
   `checks_milestones` (an unplaced reference gives `nan`, every comparison with it is false: the
@@ -34,6 +35,7 @@ structure V3 where
 deriving Repr, DecidableEq, Inhabited
 
 def V3.sub (a b : V3) : V3 := ⟨a.x - b.x, a.y - b.y, a.z - b.z⟩
+def V3.add (a b : V3) : V3 := ⟨a.x + b.x, a.y + b.y, a.z + b.z⟩
 def V3.dot (a b : V3) : Rat := a.x * b.x + a.y * b.y + a.z * b.z
 /-- squared euclidean norm -/
 def V3.nsq (a : V3) : Rat := a.x * a.x + a.y * a.y + a.z * a.z
@@ -212,11 +214,18 @@ def inWindow (s lo hi : Rat) : Prop := distGe s lo ∧ distLe s hi
 
 instance (s lo hi : Rat) : Decidable (inWindow s lo hi) := by unfold inWindow; exact inferInstance
 
-/-- acceptance test of `RandomWalk.update_positions` for a trial point `p` grown from `last`;
-`bend` and `overlap` are the outcomes of `bendiness` and `_is_overlap` -/
+/-- `pbc_complete`: `point % maxdim`, component-wise -/
+def wrapV (q box : V3) : V3 := ⟨pmod q.x box.x, pmod q.y box.y, pmod q.z box.z⟩
+
+/-- acceptance test of `RandomWalk.update_positions` for the trial step `step = vectors[index] * step_length`
+taken from `last`: the new point is `pbc_complete(last + step)`; regions, milestones (and overlap) are
+evaluated on the wrapped point, the growth direction on `unwrapped_point - last_point` (since b739cad; before
+that fix the wrapped point was used); `bend` and `overlap` are the outcomes of `bendiness` and `_is_overlap` -/
 def acceptStep (regions : List Region) (drs : List DRestr) (opt : Option RwOption)
-    (posOf : Nat → Option V3) (box last p : V3) (bend overlap : Bool) : Bool :=
-  fulfill p regions && checksMilestones posOf box p drs && isRestricted opt (p.sub last) && bend && !overlap
+    (posOf : Nat → Option V3) (box last step : V3) (bend overlap : Bool) : Bool :=
+  let unwrapped := last.add step
+  let p := wrapV unwrapped box
+  fulfill p regions && checksMilestones posOf box p drs && isRestricted opt (unwrapped.sub last) && bend && !overlap
 
 /-- the test `_random_walk` applies to the start point of the first residue -/
 def acceptStart (regions : List Region) (start : V3) (overlap : Bool) : Bool :=
